@@ -51,11 +51,11 @@ static const profile_t PROFILES[] = {
       (1u << A_ERRNO) | (1u << A_STOP) | (1u << A_PAUSE) | (1u << A_QUIT), (1u << CB_EVT), (1u << P_T), (1u << T_T), (1u << K_FD) | (1u << K_TMR), 1 | 4, 0, 16 },
     { "C03E", 2, G_SRC | G_ENVX | G_LIFE | G_QUIT | G_MSG,                                     RL_BASE | R_PS | R_SR | R_LP | R_EV, 0, "01000100" "07000100" "07010100" "04000000", 1, 0, 1,
       0, 0, 0, 0, (1u << K_SGN) | (1u << K_PATH) | (1u << K_PID), 1 | 4, 2 },
-    { "C13", 1, G_MSG | G_SUB | G_PRIO | G_BATCH | G_ENV | G_LIFE | G_SRC | G_READY,         RL_BASE | R_PS | R_FIFO | R_BA,     0, "01000100" "07000100" "07010100" "04000000", 1, 0, 1,
+    { "C13", 1, G_MSG | G_SUB | G_PRIO | G_BATCH | G_ENV | G_LIFE | G_SRC | G_READY | G_TFAULT,         RL_BASE | R_PS | R_FIFO | R_BA,     0, "01000100" "07000100" "07010100" "04000000", 1, 0, 1,
       0, 0, (1u << P_T) | (1u << P_U), (1u << T_T) | (1u << T_U), (1u << K_FD), 1 },
-    { "C13B", 1, G_MSG | G_SUB | G_PRIO | G_BATCH | G_ENV | G_BUCKET,                          RL_BASE | R_PS | R_FIFO | R_BA | R_TB, 0, "01000100" "07000100" "07010100" "04000000", 1, 0, 1,
+    { "C13B", 1, G_MSG | G_SUB | G_PRIO | G_BATCH | G_ENV | G_BUCKET | G_TFAULT,                          RL_BASE | R_PS | R_FIFO | R_BA | R_TB, 0, "01000100" "07000100" "07010100" "04000000", 1, 0, 1,
       0, 0, (1u << P_T), (1u << T_T), 0, 0 },
-    { "C18", 2, G_MSG | G_SUB | G_BUCKET | G_ENV | G_BECOME | G_PILL | G_SRC,                RL_BASE | R_PS | R_TB | R_SR,       0, "01000100" "07000100" "07010100" "04000000", 1, 0, 1,
+    { "C18", 2, G_MSG | G_SUB | G_BUCKET | G_ENV | G_BECOME | G_PILL | G_SRC | G_TFAULT,               RL_BASE | R_PS | R_TB | R_SR,       0, "01000100" "07000100" "07010100" "04000000", 1, 0, 1,
       0, 0, (1u << P_T), (1u << T_T), (1u << K_TMR), 1 },
     { "C15N", 2, G_LIFE | G_ARM | G_QUIT,                                                    RL_BASE | R_NM,                     2, "01000100" "07000103" "07010100", 1, 0, 1,
       (1u << A_CTXCALL) | (1u << A_START) | (1u << A_STOP) | (1u << A_DEREG), 0xf, 0, 0 },
